@@ -93,6 +93,43 @@ int gv_allnum;   /* ghost: every diagonal element the scaling pass read is a num
    (A)->base.mem.sz <= CVP_MAXSZ &&                                                                            \
    ((A)->base.mem.sz > 0 ==> __CPROVER_rw_ok(REP(A), (A)->base.mem.sz * sizeof(Float))))
 
+/* ---- contracts of the CovMat accessors IN TERMS OF THE TABLE (linear for CBMC).  They are proved against the extracted
+   operator[] / operator() bodies by the checks covmat_row*_tab / covmat_at*_tab (lemma oprow: the table is the
+   expression operator[] computes) and are what CovMat::solve and the Adj routines see of the accessors. ------------- */
+#define CVP_CONTRACT_CovMat_row                                                                            \
+  __CPROVER_requires(CVP_WF_COV(self) && 1 <= row && row <= self->base.row_) __CPROVER_assigns()           \
+  __CPROVER_ensures(__CPROVER_return_value == REP(self) + TAB(row))
+#define CVP_LO(r, s) ((r) > (s) ? (s) : (r))
+#define CVP_HI(r, s) ((r) > (s) ? (r) : (s))
+#define CVP_INBAND(self, r, s) (CVP_HI(r, s) - CVP_LO(r, s) <= (self)->band_)
+#define CVP_ELEM(self, r, s) (TAB(CVP_LO(r, s)) + (CVP_HI(r, s) - CVP_LO(r, s)))   /* offset of element (r,s) inside the band */
+#define CVP_CONTRACT_CovMat_at_const                                                                       \
+  __CPROVER_requires(CVP_WF_COV(self) && 1 <= r && r <= self->base.row_ && 1 <= s && s <= self->base.row_) \
+  __CPROVER_assigns()                                                                                      \
+  __CPROVER_ensures(CVP_INBAND(self, r, s) ==> (0 <= CVP_ELEM(self, r, s) && CVP_ELEM(self, r, s) < self->base.mem.sz && \
+                    MV_SAMEVAL(__CPROVER_return_value, REP(self)[CVP_ELEM(self, r, s)])))                  \
+  __CPROVER_ensures(!CVP_INBAND(self, r, s) ==> __CPROVER_return_value == 0)
+#define CVP_CONTRACT_CovMat_at                                                                             \
+  __CPROVER_requires(CVP_WF_COV(self) && 1 <= r && r <= self->base.row_ && 1 <= s && s <= self->base.row_) \
+  __CPROVER_requires(gv_exc == 0)                                                                          \
+  __CPROVER_assigns(gv_exc)                                                                                \
+  __CPROVER_ensures(CVP_INBAND(self, r, s) ==> (gv_exc == 0 && 0 <= CVP_ELEM(self, r, s) &&                \
+                    CVP_ELEM(self, r, s) < self->base.mem.sz && __CPROVER_return_value == REP(self) + CVP_ELEM(self, r, s))) \
+  __CPROVER_ensures(!CVP_INBAND(self, r, s) ==> gv_exc == GV_BadIndex)
+/* lemma instances the accessor proofs use (entry blocks) */
+#define CVP_ROW_PROOF CVP_USE_OPROW(self->base.row_, self->band_, self->band_1, self->dim_b, row);
+#define CVP_AT_PROOF  CVP_USE_STEP(self->base.row_, self->band_, CVP_LO(r, s));
+
+/* ---- CovMat::solve: conformity of the right-hand side; exclusion predicate of the finding "solve does not check it" */
+#ifdef GV_EXCL_SOLVE_NONCONFORMING
+#define CVP_EXCL_CONFORMING(A, v) __CPROVER_assume((v)->mem.sz == (A)->base.row_)
+#else
+#define CVP_EXCL_CONFORMING(A, v)
+#endif
+#define CVP_RHS_OK(A, v)                                                                                   \
+  (WF_MEM(&(v)->mem) && (v)->mem.sz <= CVP_MAXD && !SAME((v), (A)) && !SAME((v)->mem.rep, (A)) && !SAME((v)->mem.rep, (v)) && \
+   !SAME((v)->mem.rep, REP(A)) && !SAME(REP(A), (v)))
+
 /* harness helper: an arbitrary CovMat(d,b) with arbitrary contents */
 static void mk_cov(struct CovMat *A)
 {
@@ -120,6 +157,28 @@ static void mk_cov(struct CovMat *A)
 MV_CONTRACT_MemRep_begin
 //@ contract MemRep_begin_const
 MV_CONTRACT_MemRep_begin
+//@ contract Vec_at
+MV_CONTRACT_Vec_at
+//@ contract CovMat_row
+CVP_CONTRACT_CovMat_row
+//@ entry CovMat_row
+GV_CANARY("CovMat_row entry");
+CVP_ROW_PROOF
+//@ contract CovMat_row_const
+CVP_CONTRACT_CovMat_row
+//@ entry CovMat_row_const
+GV_CANARY("CovMat_row_const entry");
+CVP_ROW_PROOF
+//@ contract CovMat_at
+CVP_CONTRACT_CovMat_at
+//@ entry CovMat_at
+GV_CANARY("CovMat_at entry");
+CVP_AT_PROOF
+//@ contract CovMat_at_const
+CVP_CONTRACT_CovMat_at_const
+//@ entry CovMat_at_const
+GV_CANARY("CovMat_at_const entry");
+CVP_AT_PROOF
 //@ end
 
 /* ------------------------------------------------------------------------------------------------------------------
@@ -314,6 +373,54 @@ gv_cols = gv_cols + 1;
 __CPROVER_assert(gv_cols == k - n + 1, "every element (row+n, row+n .. row+k) inside the band has been updated");
 //@ end
 
+/* ------------------------------------------------------------------------------------------------------------------
+   CovMat::solve(rhs)  (forward substitution, division by D, backward substitution with the factor left by cholDec)
+
+   (a) every element of the factor is read through operator() / operator[] with indices in 1..dim and, for the
+       pointer walk `*m++` of the backward pass, inside row i; every element of rhs is accessed with an index in
+       1..rhs.dim(); nothing but the elements of rhs is assigned (frame: the matrix is not written).
+   (b) C15: "non-conforming operands raise an exception instead of reading outside the operands":
+       rhs.dim() != dim()  ==>  BadRank;   rhs.dim() == dim()  ==>  no exception.
+   (c) decreases clauses on the five loops.
+   The accessors are replaced by their contracts (table form, proved in covmat_row*_tab / covmat_at*_tab; Vec_at as in
+   unit matvec_index).                                                                                             */
+//@ contract CovMat_solve
+__CPROVER_requires(CVP_WF_COV(self) && CVP_RHS_OK(self, rhs) && gv_exc == 0)
+__CPROVER_assigns(gv_exc; rhs->mem.sz > 0: __CPROVER_object_whole(rhs->mem.rep))
+__CPROVER_ensures(rhs->mem.sz != self->base.row_ ==> gv_exc == GV_BadRank)
+__CPROVER_ensures(rhs->mem.sz == self->base.row_ ==> gv_exc == 0)
+//@ entry CovMat_solve
+GV_CANARY("CovMat_solve entry");
+const Index gv_dim = self->base.row_;
+//@ loop CovMat_solve 1
+__CPROVER_assigns(i, j, s; rhs->mem.sz > 0: __CPROVER_object_whole(rhs->mem.rep))
+__CPROVER_loop_invariant(2 <= i && i <= GV_MAX(gv_dim, 1) + 1)
+__CPROVER_decreases((long)gv_dim + 1 - i)
+//@ loop CovMat_solve 2
+__CPROVER_assigns(j, s)
+__CPROVER_loop_invariant(1 <= j && j <= i)
+__CPROVER_decreases((long)i - j)
+//@ loop CovMat_solve 3
+__CPROVER_assigns(i; rhs->mem.sz > 0: __CPROVER_object_whole(rhs->mem.rep))
+__CPROVER_loop_invariant(1 <= i && i <= gv_dim + 1)
+__CPROVER_decreases((long)gv_dim + 1 - i)
+//@ head CovMat_solve 3
+CVP_USE_STEP(gv_dim, self->band_, i);
+//@ loop CovMat_solve 4
+__CPROVER_assigns(i, k, m, s; rhs->mem.sz > 0: __CPROVER_object_whole(rhs->mem.rep))
+__CPROVER_loop_invariant(-1 <= i && i <= gv_dim - 1)
+__CPROVER_decreases((long)i)
+//@ head CovMat_solve 4
+CVP_USE_STEP(gv_dim, self->band_, i);
+//@ loop CovMat_solve 5
+__CPROVER_assigns(k, m, s)
+__CPROVER_loop_invariant(i + 1 <= k && k <= GV_MIN(i + self->band_, gv_dim) + 1 && SAME(m, REP(self)) &&
+                         OFF(m) == OFF(REP(self)) + FSZ * (TAB(i) + (k - i)))
+__CPROVER_decreases((long)GV_MIN(i + self->band_, gv_dim) + 1 - k)
+//@ head CovMat_solve 5
+GV_ANCHOR(m, REP(self) + (TAB(i) + (k - i)));
+//@ end
+
 //@ harness
 void h_covmat_cholDec(void)
 {
@@ -358,5 +465,58 @@ void h_covmat_cholDec_elim(void)
   __CPROVER_assume(TAB(row + n) - n >= TAB(row) + k);     /* the caller's loop invariant: OFF(p) >= OFF(B) + FSZ*k */
   CovMat_cholDec_elim(&A, B, &p, A.base.row_, A.band_, row, k, n, pivot);
   GV_CANARY("h_covmat_cholDec_elim end");
+}
+
+/* harness helper: an arbitrary vector of arbitrary dimension (allocated into a local first, see mk_cov) */
+static void mk_vec(struct Vec *v)
+{
+  Index n;
+  __CPROVER_assume(0 <= n && n <= CVP_MAXD);
+  v->mem.sz = n;
+  Float *m = malloc((size_t)n * sizeof(Float));
+  __CPROVER_assume(m != NULL);
+  v->mem.rep = m;
+}
+
+void h_covmat_row(void)
+{
+  struct CovMat A;
+  mk_cov(&A);
+  Index row;
+  __CPROVER_assume(1 <= row && row <= A.base.row_);
+#if CVP_CONST
+  const Float *p = CovMat_row_const(&A, row);
+#else
+  Float *p = CovMat_row(&A, row);
+#endif
+  GV_CANARY("h_covmat_row end");
+}
+
+void h_covmat_at(void)
+{
+  struct CovMat A;
+  mk_cov(&A);
+  Index r, s;
+  __CPROVER_assume(1 <= r && r <= A.base.row_ && 1 <= s && s <= A.base.row_);
+  gv_exc = 0;
+#if CVP_CONST
+  Float v = CovMat_at_const(&A, r, s);
+#else
+  Float *p = CovMat_at(&A, r, s);
+#endif
+  GV_CANARY("h_covmat_at end");
+}
+
+void h_covmat_solve(void)
+{
+  struct CovMat A;
+  struct Vec x;
+  mk_cov(&A);
+  mk_vec(&x);
+  CVP_EXCL_CONFORMING(&A, &x);
+  gv_exc = 0;
+  Index w_dim = A.base.row_, w_band = A.band_, w_rhsdim = x.mem.sz;
+  CovMat_solve(&A, &x);
+  GV_CANARY("h_covmat_solve end");
 }
 //@ end
